@@ -440,6 +440,9 @@ pub struct Case {
     pub range_end: Option<usize>,
     /// extra capacity of the source vector (VecOwn)
     pub extra_cap: usize,
+    /// adaptor kinds (and their underlying kinds in the lock-step): number of elements pulled from the
+    /// underlying iterator *before* `cloned()` / `copied()` is applied
+    pub pre: usize,
     /// seed of the element values
     pub vseed: u64,
     pub threads: Vec<Vec<Op>>,
@@ -461,6 +464,7 @@ impl Case {
             range_start: 0,
             range_end: None,
             extra_cap: 0,
+            pre: 0,
             vseed: 1,
             threads,
             sched: vec![],
@@ -505,6 +509,9 @@ impl Case {
         }
         if self.extra_cap != 0 {
             m.insert("extra_cap".into(), json!(self.extra_cap));
+        }
+        if self.pre != 0 {
+            m.insert("pre".into(), json!(self.pre));
         }
         if !self.sched.is_empty() {
             m.insert("sched".into(), json!(sched));
@@ -554,6 +561,7 @@ impl Case {
             None => None,
         };
         let extra_cap = v.get("extra_cap").and_then(|x| x.as_u64()).unwrap_or(0) as usize;
+        let pre = v.get("pre").and_then(|x| x.as_u64()).unwrap_or(0) as usize;
         let mut threads = vec![];
         for t in v
             .get("threads")
@@ -622,6 +630,7 @@ impl Case {
             range_start,
             range_end,
             extra_cap,
+            pre,
             vseed,
             threads,
             sched,
